@@ -2,6 +2,21 @@
 From FV Require Import Model.Base Model.Sink.
 Local Open Scope N_scope.
 
+Lemma P2_pow n : P2 n = 2 ^ n.
+Proof. unfold P2. apply N.shiftl_1_l. Qed.
+
+Lemma ZP2_pow n : ZP2 n = (2 ^ n)%Z.
+Proof. unfold ZP2. apply Z.shiftl_1_l. Qed.
+
+(* normalise the fast power-of-two of the executable model to N.pow / Z.pow *)
+Lemma DIV2_eq x k : DIV2 x k = x / 2 ^ k.
+Proof. unfold DIV2. apply N.shiftr_div_pow2. Qed.
+
+Lemma MOD2_eq x k : MOD2 x k = x mod 2 ^ k.
+Proof. unfold MOD2. apply N.land_ones. Qed.
+
+Ltac p2 := rewrite ?P2_pow, ?ZP2_pow, ?DIV2_eq, ?MOD2_eq in *; change (2 ^ 8) with 256 in *.
+
 Lemma pow2_pos n : 0 < 2 ^ n.
 Proof. apply N.neq_0_lt_0, N.pow_nonzero; discriminate. Qed.
 
